@@ -106,6 +106,7 @@ def record(e):
     """What the rest of the library reads from an element."""
     r = {a: getattr(e, a) for a in ATTRS}
     r['class'] = type(e)
+    r['vars'] = dict(vars(e))        # every instance attribute, whatever it is called: the rest of the library may read any of them
     if isinstance(e, ParamTocElement):
         r['extended'] = e.extended
     return r
@@ -128,6 +129,11 @@ def assert_same_table(loaded, snap, what):
             assert type(e) is r['class'], (what, 'element class', g, n)
             for a in ATTRS:
                 assert getattr(e, a) == r[a], (what, 'attribute differs', a, g, n)
+            lv = vars(e)
+            assert sorted(lv.keys()) == sorted(r['vars'].keys()), (what, 'the loaded element does not carry the same attributes', g, n)
+            for a in sorted(lv.keys()):
+                if a != 'persistent':            # the persistence marker is not stored; it is re-derived by the extended-type fetch
+                    assert lv[a] == r['vars'][a], (what, 'attribute differs', a, g, n)
             if r['class'] is ParamTocElement:
                 assert e.extended == r['extended'], (what, 'extended marker differs', g, n)
                 assert (True if e.is_extended() else False) == (True if r['extended'] else False)
